@@ -1,20 +1,34 @@
 """C16 - a saved model reads back equal to the model last written, whatever came before.
 
 (M)   Io.tla: the model file as tables of rows; Write = DropAll ; per field CreateIfNotExists ; Insert*(serialise);
-      Read = select in rowid order ; deserialise as io.c does.  ReadsLast is model-checked over all write/read histories
-      (2 paths x 3 kinds x 3 size classes, the third with empty optional fields) for the conforming variant, and must FAIL for the two defective variants
-      (DropTables = FALSE: the DROP statements are never executed; SaveAll = FALSE: PCAMODEL.dmodx is not saved).
-(GEN) IoGen.tla: every history of length <= 3 (BFS, up to renaming of the two paths) and a sample of histories of length 5
-      (simulate) as JSON.  Size classes: small, large, and "unscaled" (fitted with scaling -1: the preprocessing vectors are
-      EMPTY), so that empty fields are written over non-empty ones for every kind and across PCA/CPCA.
+      Read = select in rowid order ; deserialise as io.c does; Rewrite = the same in-memory model written once more.
+      ReadsLast, EmptyStaysEmpty and Canonical (the file is a function of the model last written alone) are model-checked over all
+      write/read histories (2 paths x 3 kinds x 3 abstract size classes, the third with empty optional fields), over the history family
+      that writes/reads every CONCRETE profile model (90 parameter vectors whose serialised vectors / matrices / tensors / lists have
+      4, 32, 64, 96, 128, 256 and +-1 rows; lemma K2Covered) and over the rewrite family, for the conforming variant; the invariant
+      must FAIL for three defective variants (DropTables = FALSE: the DROP statements are never executed; SaveAll = FALSE:
+      PCAMODEL.dmodx is not saved; ReadBlock = 32: a block-wise reader that forgets the length of a table with 32k rows - refuted
+      only by the profile alphabet, lemma LegacyBlockBlind says why the abstract classes cannot).  Lemmas on every model of the
+      alphabet: SerLen, RoundTripExact (Deser o Ser = id exactly where the reader variant is not block-blind), StaleSuffix.
+(GEN) IoGen.tla: every history of length <= 3 over the abstract classes (BFS, up to renaming of the two paths), the profile family
+      (every profile written and read, alone, over and under an abstract model of the same or the table-sharing kind), the rewrite
+      family (K7) and a sample of histories of length 5 over the whole alphabet (simulate) as JSON; profile Writes carry their fit
+      parameters and content class (K3 offsets, K4 range ends, K5 planted constants), the catalogue carries their input classes.
 (C)   c16_drv executes the histories on real files with real fitted PCA/CPCA/PLS models; after every step the real file's
       tables and row counts are logged; every Read is compared field by field with every model written before.  TLC validates
-      the recording against TraceIo.tla: Prop layer = ReadsLast on the logged dims/errors/predictions and "writing does not
-      modify the model"; Impl layer = the real row counts equal db[path] of the spec variant.
+      the recording against TraceIo.tla: Prop layer = ReadsLast on the logged dims/errors/predictions (prediction bound scaled in the
+      spec with the logged conditioning of a profile model) and "writing does not modify the model" (checksum, and a rewritten model
+      still has the shapes it was made with); Impl layer = the real row counts equal db[path] of the spec variant and a profile
+      model has the shapes FitShape(kind, parameters) of the specification.
 (V)   the variant (DropTables, SaveAll) whose Impl layer accepts the real files is the implemented one; it is fed back
       as the constants of the model.  A model counterexample is reported only with a failing run of the real code.
+(X)   outside the statement of C16 (EXTRA-FINDING only, never a verdict): Read into a model object that an earlier Read filled (action
+      ReadAgain, variants Reuse = appends / resets; this is what the python binding's PCA.load()/PLS.load()/CPCA.load() do on a used
+      object).  The exact model of what io.c does with a used destination is model-checked (ReusedReadsLast refuted for "appends", holds
+      for "resets"), the reuse history family is executed, TLC identifies the implemented variant on the recorded fields and, with
+      XProp = TRUE, holds the reused reads to ReadsLast: a rejection is printed as EXTRA-FINDING.
 """
-import json, os, random, re, shutil
+import json, os, random, re, shutil, threading
 from concurrent.futures import ThreadPoolExecutor
 from vf import build, tlc, trace
 from vf import run as hrun
@@ -22,24 +36,53 @@ from vf.core import InfraError
 
 LEVEL = "model_checking"
 READY = True
-TECHNIQUE = ("TLC model checking of Io.tla (file = tables of rows, all write/read histories up to length 5 over 2 paths x 3 kinds x 3 size classes incl. models with empty optional fields, "
-             "both variants of DropAllTables) + TLC-generated histories replayed on real SQLite files with real fitted models + TLC trace "
-             "validation of the recorded table states and read-back comparisons (TraceIo.tla)")
-LEVEL_TEXT = ("The table-level mechanism of io.c is modelled exactly and ReadsLast is model-checked over every write/read history within the bounds; "
-              "every history of length <= 3 and a sample of length-5 histories generated by TLC are executed against the real library, and TLC "
+TECHNIQUE = ("TLC model checking of Io.tla (file = tables of rows; all write/read histories up to length 5 over 2 paths x 3 kinds x 3 abstract size classes incl. "
+             "models with empty optional fields; the history families that write/read 90 concrete profile models with block-boundary table lengths 4/32/64/96/128/256 +-1 "
+             "and that rewrite the same in-memory model; three defective variants refuted: DropAllTables no-op, unsaved field, block-wise reader; outside the statement: "
+             "Read into a used model object, appending reader refuted / resetting reader holds) + (de)serialiser lemmas "
+             "checked by TLC on every model of the alphabet + TLC-generated histories replayed on real SQLite files with real fitted models whose dimensions and content "
+             "classes TLC chose + TLC trace validation of the recorded table states, shapes and read-back comparisons (TraceIo.tla)")
+LEVEL_TEXT = ("The table-level mechanism of io.c is modelled exactly and ReadsLast / EmptyStaysEmpty / Canonical are model-checked over every write/read history within the bounds; "
+              "every history of length <= 3 over the abstract classes, every profile model (written and read alone and over/under another model), every rewrite history "
+              "and a sample of length-5 histories over the whole alphabet, all generated by TLC, are executed against the real library, and TLC "
               "validates the real files' table states against the model (identifying the implemented variant) and every read-back field, "
-              "prediction and write-side checksum against the property.")
+              "prediction and write-side checksum against the property.  Outside the statement (EXTRA-FINDING only): reads into a model object that an earlier read filled are "
+              "executed too and validated against the exact model of what io.c does with a used destination.")
 LEVEL_NOTE = ("Trusts TLC, the harness's double-precision comparison of read-back and written numbers (logged as errors in units of 1e-18; TLC decides "
               "which written model is the most recent and applies the tolerance), the sqlite3 API used to read the real tables, ASan/UBSan as memory "
-              "monitor.  Model contents are sampled (random fitted models, half of them rescaled to 1e-9..1e9); histories are exhaustive up to length 3.")
+              "monitor.  Model contents are sampled (random fitted models; rescaled to 1e-9..1e9, pushed to the range ends with planted constants, or fitted on "
+              "data with column offsets of 1e3 / 1e6 standard deviations); histories are exhaustive up to length 3 over the abstract classes.  "
+              "Input classes of INPUT-CLASSES.md: K1, K2, K3, K4, K5, K7, K8 (empty optional fields) are emitted and counted (coverage.classes). Not emitted, with the reason: "
+              "K6 (io.c reaches no MT kernel and spawns no worker; all fits and predictions run with one processor forced), K8 duplicate/constant columns in the training "
+              "data (the quantifier speaks of models fitted on random data; such fits are C18/C10 territory), K9 as missing-value semantics (the property does not mention "
+              "missing values; the code 99999999 is only planted as an ordinary stored number), K10 (no labels or index maps in a model file), K2 boundaries listed in "
+              "K2Unreachable of Io.tla (no model within the parameter ranges has such a table).  Reading into a model object that already holds a model (K7 'outputs that "
+              "hold other data') is outside the statement - the property speaks of histories of writes to a path, its reads go into fresh models - and is therefore modelled, driven "
+              "and reported as EXTRA-FINDING (IO:<kind>:read-into-used-object), never as a verdict.")
 
 TOL = 1000          # 1e-15 in units of 1e-18
 TOLPRED = 1000000   # 1e-12: predictions of two models whose numbers agree to 1e-15 (few-term sums, moderate scale)
+MAXPREDFACTOR = 2000   # mirrors TraceIo!MaxPredFactor (labelling only)
 PATHS = '{"p1", "p2"}'
-NPROC = int(os.environ.get("C16_NPROC", "10"))    # harness processes run side by side
+W = max(2, int(os.environ.get("VERIF_WORKERS", "8")))
+NPROC = int(os.environ.get("C16_NPROC", str(min(10, W + 2))))    # harness processes run side by side
+NPAR = max(2, min(5, W))                                          # TLC processes run side by side
 # a reader that takes stale or misplaced numbers for dimensions asks for gigabytes: cap single allocations and the resident set so
 # that such a read ends as a reported crash of that history instead of exhausting the (shared) machine
 HENV = {"ASAN_OPTIONS": hrun.SAN_ENV["ASAN_OPTIONS"] + ":max_allocation_size_mb=256:hard_rss_limit_mb=2048"}
+_LOCK = threading.Lock()
+
+# field typing of the three model kinds (mirror of Io!ModelFieldSeq, used for the class ACCOUNTING only)
+_VEC = {"PCA": ["colaverage", "colscaling", "varexp"], "CPCA": ["scaling_factor", "total_expvar"],
+        "PLS": ["xcolscaling", "xcolaverage", "ycolscaling", "ycolaverage", "xvarexp", "b"]}
+_TEN = {"PCA": [], "CPCA": ["block_scores", "block_loadings"],
+        "PLS": ["roc_recalculated", "roc_validation", "precision_recall_recalculated", "precision_recall_validation"]}
+_LST = {"PCA": [], "CPCA": ["block_expvar", "colaverage", "colscaling"], "PLS": []}
+_K2LENS = {b + d for b in (4, 32, 64, 96, 128, 256) for d in (-1, 0, 1)}
+
+
+def _ftype(k, f):
+    return "vec" if f in _VEC[k] else "ten" if f in _TEN[k] else "lst" if f in _LST[k] else "mat"
 
 
 # ------------------------------------------------------------------------------------------------ (M)
@@ -56,60 +99,144 @@ def _final_ops(out):
     return res
 
 
-def model_check(ctx):
-    cfg = "MC_Io_quick.cfg" if ctx.quick else "MC_Io_thorough.cfg"
-    r = tlc.run("Io", cfg, timeout=1500)
-    ctx.add_tlc(r, "mc_io_conforming")
+def _tlc_many(jobs):
+    """jobs: [(label, module, cfg, kwargs)] run side by side (NPAR at a time); returns {label: TlcResult}"""
+    def one(j):
+        label, module, cfg, kw = j
+        return label, tlc.run(module, cfg, **kw)
+    with ThreadPoolExecutor(NPAR) as ex:
+        return dict(ex.map(one, jobs))
+
+
+def mc_jobs(ctx):
+    main = "MC_Io_quick.cfg" if ctx.quick else "MC_Io_thorough.cfg"
+    one = dict(workers=1, timeout=900, coverage=False)    # one worker: strict BFS, shortest counterexample; coverage only where it is read
+    return [("mc_io_conforming", "Io", main, dict(workers=max(2, W // 2), timeout=1700)),
+            ("mc_io_nodrop", "Io", "MC_Io_nodrop.cfg", one),
+            ("mc_io_unsaved", "Io", "MC_Io_unsaved.cfg", one),
+            ("mc_io_lemmas", "Io", "MC_Io_lemmas.cfg", one),
+            ("mc_io_lemmas_blockreader", "Io", "MC_Io_lemmas_block.cfg", one),
+            ("mc_io_profiles", "Io", "MC_Io_prof.cfg" if ctx.quick else "MC_Io_prof_thorough.cfg", dict(workers=2, timeout=1700)),
+            ("mc_io_blockreader_profiles", "Io", "MC_Io_block.cfg", one),
+            ("mc_io_blockreader_abstract", "Io", "MC_Io_block_legacy.cfg", one),
+            ("mc_io_rewrite", "Io", "MC_Io_rewrite_quick.cfg" if ctx.quick else "MC_Io_rewrite.cfg", dict(workers=2, timeout=1700)),
+            ("mc_io_reuse_appends", "Io", "MC_Io_reuse_appends.cfg", one),
+            ("mc_io_reuse_resets", "Io", "MC_Io_reuse_resets.cfg", dict(workers=1, timeout=900))]
+
+
+def model_check(ctx, rs):
+    r = rs["mc_io_conforming"]
     if not r.ok:
         raise InfraError("Io.tla: %s fails for the conforming variant (DropTables, SaveAll):\n%s" % (r.violation, r.trace_text[:1500]))
-    z = r.zero_actions()
+    z = r.zero_actions(ignore=("Rewrite", "ReadAgain"))     # those two are exercised by their own configurations (checked below)
     if z or r.coverage.get("Read", (0, 0))[0] == 0 or r.coverage.get("Write", (0, 0))[0] == 0:
         raise InfraError("Io.tla model check is vacuous: actions never taken %s, coverage %s" % (z, r.coverage))
-    ctx.note("model (DropTables, SaveAll): ReadsLast holds, %d distinct states, Write taken %d, Read taken %d (%.1fs)"
+    ctx.note("model (DropTables, SaveAll): ReadsLast, EmptyStaysEmpty, Canonical hold, %d distinct states, Write taken %d, Read taken %d (%.1fs)"
              % (r.distinct, r.coverage["Write"][0], r.coverage["Read"][0], r.wall))
     verdict = {(True, True): True}
-    # the invariant must be able to fail: the two defective variants each have a shortest counterexample of the expected shape
-    r = tlc.run("Io", "MC_Io_nodrop.cfg", workers=1, timeout=600)     # one worker: strict BFS, shortest counterexample
-    ctx.add_tlc(r, "mc_io_nodrop")
+    # the invariant must be able to fail: the defective variants each have a shortest counterexample of the expected shape
+    r = rs["mc_io_nodrop"]
     ops = _final_ops(r.out)
     if r.violation != "ReadsLast" or len(ops) != 3 or [o[0] for o in ops] != ["W", "W", "R"] or len({o[1] for o in ops}) != 1:
         raise InfraError("Io.tla with DropTables = FALSE: expected the counterexample Write;Write;Read on one path, got %s %s" % (r.violation, ops))
     ctx.note("model (DropTables = FALSE): ReadsLast violated by %s" % " ; ".join("%s(%s,%s,%s)" % o for o in ops))
     verdict[(False, True)] = False
-    r = tlc.run("Io", "MC_Io_unsaved.cfg", workers=1, timeout=600)
-    ctx.add_tlc(r, "mc_io_unsaved")
+    r = rs["mc_io_unsaved"]
     ops = _final_ops(r.out)
     if r.violation != "ReadsLast" or [o[0] for o in ops] != ["W", "R"] or ops[0][2] != "PCA":
         raise InfraError("Io.tla with SaveAll = FALSE: expected the counterexample Write(PCA);Read, got %s %s" % (r.violation, ops))
     ctx.note("model (SaveAll = FALSE): ReadsLast violated by %s" % " ; ".join("%s(%s,%s,%s)" % o for o in ops))
     verdict[(True, False)] = False
+    # lemmas on every model of the alphabet (one-state configurations)
+    for lab, what in (("mc_io_lemmas", "SerLen, RoundTripExact, StaleSuffix, K2Covered, SizesDiffer"),
+                      ("mc_io_lemmas_blockreader", "RoundTripExact (exactly the tables with 32k rows of plain vectors / lists are lost), LegacyBlockBlind")):
+        r = rs[lab]
+        if not r.ok:
+            raise InfraError("Io.tla: lemma %s fails (%s):\n%s" % (r.violation, lab, r.trace_text[:1500]))
+        ctx.note("model lemmas hold: %s" % what)
+    # the profile family: holds for the conforming reader, and ONLY the profiles refute the block-wise reader
+    r = rs["mc_io_profiles"]
+    if not r.ok or r.coverage.get("Read", (0, 0))[0] == 0:
+        raise InfraError("Io.tla (profile family): %s, coverage %s\n%s" % (r.violation, r.coverage, r.trace_text[:1500]))
+    ctx.note("model (profile family): ReadsLast, EmptyStaysEmpty, Canonical hold on %d states (%d Writes, %d Reads of concrete models)" % (r.distinct, r.coverage["Write"][0], r.coverage["Read"][0]))
+    r = rs["mc_io_blockreader_profiles"]
+    ops = _final_ops(r.out)
+    if r.violation != "ReadsLast" or [o[0] for o in ops] != ["W", "R"] or ops[0][3] < 4:
+        raise InfraError("Io.tla with ReadBlock = 32: expected the counterexample Write(profile);Read, got %s %s" % (r.violation, ops))
+    ctx.note("model (ReadBlock = 32, block-wise reader): ReadsLast violated by %s" % " ; ".join("%s(%s,%s,%s)" % o for o in ops))
+    r = rs["mc_io_blockreader_abstract"]
+    if not r.ok:
+        raise InfraError("Io.tla with ReadBlock = 32 over the abstract size classes: expected to hold (no table with 32k rows), got %s" % r.violation)
+    ctx.note("model (ReadBlock = 32) over the abstract size classes alone: ReadsLast holds on %d states - the block-wise reader is invisible without class K2" % r.distinct)
+    r = rs["mc_io_rewrite"]
+    if not r.ok or r.coverage.get("Rewrite", (0, 0))[0] == 0:
+        raise InfraError("Io.tla (Rewrites): %s, coverage %s\n%s" % (r.violation, r.coverage, r.trace_text[:1500]))
+    ctx.note("model (Rewrites): ReadsLast, EmptyStaysEmpty, Canonical hold on %d states (Rewrite taken %d)" % (r.distinct, r.coverage["Rewrite"][0]))
+    # outside the statement: Read into a used model object
+    r = rs["mc_io_reuse_appends"]
+    ops = _final_ops(r.out)
+    if r.violation != "ReusedReadsLast" or [o[0] for o in ops] != ["W", "R", "Q"]:
+        raise InfraError("Io.tla with Reuse = appends: expected ReusedReadsLast refuted by Write;Read;ReadAgain, got %s %s" % (r.violation, ops))
+    r2 = rs["mc_io_reuse_resets"]
+    if not r2.ok or r2.coverage.get("ReadAgain", (0, 0))[0] == 0:
+        raise InfraError("Io.tla with Reuse = resets: %s, coverage %s" % (r2.violation, r2.coverage))
+    ctx.note("model (outside the statement; Read into a used object): ReusedReadsLast refuted for the appending reader by %s, holds for a reader that empties its destination (%d states, ReadAgain taken %d)"
+             % (" ; ".join("%s(%s,%s,%s)" % o for o in ops), r2.distinct, r2.coverage["ReadAgain"][0]))
     return verdict
 
 
 # ------------------------------------------------------------------------------------------------ (GEN)
 def _opstr(o):
-    return "W:%s:%s:%d" % (o["p"], o["k"], o["s"]) if o["op"] == "W" else "R:%s:%s" % (o["p"], o["k"])
+    if o["op"] == "W":
+        return "W:%s:%s:%d" % (o["p"], o["k"], o["s"]) + (":" + ".".join(str(x) for x in o["prm"]) if o.get("prm") else "")
+    return "%s:%s:%s%s" % (o["op"], o["p"], o["k"], ":%d" % o["s"] if o["op"] == "X" else "")     # R, Q: path and kind; X: also the step rewritten
 
 
-def gen_histories(ctx, nsim, nsample):
-    r = tlc.run("IoGen", "MC_Io_gen.cfg", workers=1, timeout=600, coverage=False)
-    ctx.add_tlc(r, "gen_bfs")
-    if not r.ok or not r.emits:
-        raise InfraError("GEN (BFS) failed: %s" % r.violation)
-    allh = {" ".join(_opstr(o) for o in e["h"]) for e in r.emits}
-    if len(allh) != r.distinct:
-        raise InfraError("GEN: %d histories for %d states" % (len(allh), r.distinct))
+def _hists(r):
+    return {" ".join(_opstr(o) for o in e["h"]) for e in r.emits if "h" in e}
+
+
+def _maximal(allh):
+    hs = sorted(h for h in allh if h)
+    pref = set()
+    for h in hs:
+        t = h.split(" ")
+        for i in range(1, len(t)):
+            pref.add(" ".join(t[:i]))
+    return [h for h in hs if h not in pref]
+
+
+def gen_jobs(ctx, nsim):
+    gen = dict(workers=1, timeout=900, coverage=False)
+    return [("gen_bfs", "IoGen", "MC_Io_gen.cfg", gen), ("gen_profiles", "IoGen", "MC_Io_gen_prof.cfg" if ctx.quick else "MC_Io_gen_prof_thorough.cfg", gen), ("gen_rewrite", "IoGen", "MC_Io_gen_k7.cfg", gen), ("gen_reuse", "IoGen", "MC_Io_gen_reuse.cfg", gen),
+            ("gen_simulate", "IoGen", "MC_Io_sim.cfg", dict(workers=1, timeout=900, simulate="num=%d" % nsim, depth=6, seed=ctx.seed, coverage=False))]
+
+
+def gen_histories(ctx, rs, nsample):
+    out = {}
+    for label in ("gen_bfs", "gen_profiles", "gen_rewrite", "gen_reuse"):
+        r = rs[label]
+        if not r.ok or not r.emits:
+            raise InfraError("GEN (%s) failed: %s" % (label, r.violation))
+        allh = _hists(r)
+        if len(allh) != r.distinct:
+            raise InfraError("GEN %s: %d histories for %d states" % (label, len(allh), r.distinct))
+        out[label] = (allh, _maximal(allh))
+    catalogue = {(e["cat"]["k"], e["cat"]["s"]): e["cat"] for e in rs["gen_profiles"].emits if "cat" in e}
+    if not catalogue:
+        raise InfraError("GEN: no profile catalogue")
     # every history of length <= 2 is a prefix of one of length 3: executing the maximal ones executes them all
-    maximal = sorted(h for h in allh if not any(g != h and g.startswith(h + " ") for g in allh) and h)
+    allh, maximal = out["gen_bfs"]
     short = len(allh) - 1
-    r2 = tlc.run("IoGen", "MC_Io_sim.cfg", workers=1, timeout=600, simulate="num=%d" % nsim, depth=6, seed=ctx.seed, coverage=False)
-    ctx.add_tlc(r2, "gen_simulate")
-    pool = sorted({" ".join(_opstr(o) for o in e["h"]) for e in r2.emits if len(e["h"]) == 5})
+    r2 = rs["gen_simulate"]
+    pool = sorted({" ".join(_opstr(o) for o in e["h"]) for e in r2.emits if "h" in e and len(e["h"]) == 5})
     sim = sorted(random.Random(ctx.seed).sample(pool, min(nsample, len(pool))))
     if not sim:
         raise InfraError("GEN (simulate) produced no history of length 5")
-    ctx.note("GEN: %d histories of length 1..3 (all up to renaming of the two paths; %d maximal), %d sampled histories of length 5 (each containing its length-4 prefix)"
-             % (short, len(maximal), len(sim)))
+    prof, rew = out["gen_profiles"][1], out["gen_rewrite"][1]
+    ctx.note("GEN: %d histories of length 1..3 over the abstract classes (all up to renaming of the two paths; %d maximal), %d profile histories (%d profiles), "
+             "%d rewrite histories, %d sampled histories of length 5 over the whole alphabet (each containing its length-4 prefix)"
+             % (short, len(maximal), len(prof), len(catalogue), len(rew), len(sim)))
     # the quantifier "whatever came before" includes an EMPTY field written over a non-empty one: the executed set must contain,
     # for every kind, scaled -> unscaled (size class 3 = fitted with scaling -1) on one path followed by a Read, and CPCA <-> PCA
     need = ["W:p1:%s:%d W:p1:%s:3 R:p1:%s" % (k, s, k, k) for k in ("PCA", "CPCA", "PLS") for s in (1, 2)] + \
@@ -117,7 +244,22 @@ def gen_histories(ctx, nsim, nsample):
     missing = [h for h in need if h not in maximal]
     if missing:
         raise InfraError("GEN does not contain the scaled->unscaled histories %s" % missing)
-    return maximal, sim, short
+    # every profile must be written and read on its own, and the rewrite family must rewrite
+    alone = set()
+    for h in prof:
+        t = h.split(" ")
+        if len(t) == 2 and t[1].startswith("R:"):
+            f = t[0].split(":")
+            alone.add((f[2], int(f[3])))
+    lacking = [k for k in catalogue if k not in alone]
+    if lacking:
+        raise InfraError("GEN: profiles never written and read on their own: %s" % lacking)
+    if not rew or not all(" X:" in h for h in rew):
+        raise InfraError("GEN: the rewrite family contains histories without a rewrite")
+    reuse = out["gen_reuse"][1]
+    if not reuse or not all(" Q:" in h for h in reuse):
+        raise InfraError("GEN: the reuse family contains histories without a Read into a used object")
+    return maximal, prof, rew, sim, short, catalogue, reuse
 
 
 # ------------------------------------------------------------------------------------------------ (C)
@@ -125,16 +267,36 @@ def _ncells(sh):
     return sum(p[0] if len(p) == 1 else p[0] * p[1] for p in sh)
 
 
+def _nvars(k, sh):
+    if k == "PCA":
+        return sh["loadings"][0][0]
+    if k == "PLS":
+        return sh["xloadings"][0][0]
+    return sum(p[0] for p in sh["block_loadings"])
+
+
+def _pred_factor(w):
+    """mirror of TraceIo!PredFactor (labelling and statistics only; TLC applies the bound)"""
+    if not w["prm"]:
+        return 1
+    n = _nvars(w["k"], w["sh"])
+    r = 0
+    while r * r < n:
+        r += 1
+    return 1 + (w["kap"] * r) // 100
+
+
 def label_events(events):
     """python-side explanation of what is wrong with an event (None = nothing seen): used to name the signature of an
     event REJECTED BY TLC and to drop the other events with the same signature; TLC stays the judge of everything kept."""
     lab = {}
-    stats = dict(fields_compared=0, worst_field_err_1e18=0, preds_compared=0, worst_pred_err_1e18=0, empty_fields_read=0)
-    lastw, lastp, tables = {}, {}, {}
+    stats = dict(fields_compared=0, worst_field_err_1e18=0, preds_compared=0, worst_pred_err_1e18=0, worst_pred_err_over_bound_ppm=0, empty_fields_read=0,
+                 profile_writes=0, rewrites=0)
+    lastw, lastp, tables, made = {}, {}, {}, {}
     for ev in events:
         e = ev["e"]
         if e == "Reset":
-            lastw, lastp, tables = {}, {}, {}
+            lastw, lastp, tables, made = {}, {}, {}, {}
             continue
         p, k = ev.get("p"), ev.get("k")
 
@@ -144,6 +306,14 @@ def label_events(events):
         if e == "Write":
             lastw[(p, k)] = ev
             lastp[p] = ev
+            if ev["re"]:
+                stats["rewrites"] += 1
+                m = made.get(ev["tag"])
+                if not m or m["k"] != k or m["sh"] != ev["sh"]:
+                    lab[id(ev)] = "IO:%s:mutated" % k
+            else:
+                made[ev["tag"]] = ev
+                stats["profile_writes"] += bool(ev["prm"])
         elif e == "Mut":
             if ev["mut"]:
                 lab[id(ev)] = "IO:%s:mutated" % k
@@ -151,7 +321,7 @@ def label_events(events):
             tables[p] = ev["t"]
         elif e == "Field":
             w = lastw.get((p, k))
-            if not w:
+            if not w or ev.get("x"):
                 continue
             exp = w["sh"][ev["f"]]
             bad_d = ev["d"] != exp
@@ -170,12 +340,19 @@ def label_events(events):
                 stats["empty_fields_read"] += 1
         elif e == "Pred":
             w = lastw.get((p, k))
-            if w and w["resc"] == 0 and not any(t == w["tag"] and err <= TOLPRED for t, err in ev["c"]):
+            if not w or w["resc"] != 0:
+                continue
+            fac = _pred_factor(w)
+            if fac > MAXPREDFACTOR:
+                continue
+            if not any(t == w["tag"] and err <= TOLPRED * fac for t, err in ev["c"]):
                 lab[id(ev)] = "IO:%s:%s" % (k, "stale-rows" if stale() else "predict")
-            elif w and w["resc"] == 0:
+            else:
+                err = min(err for t, err in ev["c"] if t == w["tag"])
                 stats["preds_compared"] += 1
-                stats["worst_pred_err_1e18"] = max(stats["worst_pred_err_1e18"], min(err for t, err in ev["c"] if t == w["tag"]))
-        elif e == "Crash":
+                stats["worst_pred_err_1e18"] = max(stats["worst_pred_err_1e18"], err)
+                stats["worst_pred_err_over_bound_ppm"] = max(stats["worst_pred_err_over_bound_ppm"], err * 1000000 // (TOLPRED * fac))
+        elif e == "Crash" and not ev.get("x"):
             lab[id(ev)] = "IO:%s:%s" % (k, "stale-rows" if stale() else "crash:%s" % ev["stage"])
     return lab, stats
 
@@ -201,9 +378,10 @@ def guess_variant(events):
     return (True if drop is None else drop, False if save is None else save)
 
 
-def _cfg(rd, name, drop, save, prop_off, impl_off):
+def _cfg(rd, name, drop, save, prop_off, impl_off, reuse="off", xprop=False):
     return tlc.write_cfg(os.path.join(rd, name), spec="TSpec",
-                         constants=dict(Paths=PATHS, MaxHist=0, DropTables=drop, SaveAll=save, PropOff=prop_off, ImplOff=impl_off, Tol=TOL, TolPred=TOLPRED),
+                         constants=dict(Paths=PATHS, MaxHist=0, DropTables=drop, SaveAll=save, ReadBlock=0, SizeSet="{1, 2, 3}", Rewrites=False, Shape="all", Reuse=reuse,
+                                        PropOff=prop_off, ImplOff=impl_off, Tol=TOL, TolPred=TOLPRED, XProp=xprop),
                          constraints=["Diag"], postcondition="TraceAccepted", deadlock=False)
 
 
@@ -227,12 +405,12 @@ def _run_part(exe, d, part, seed):
         except (OSError, ValueError):
             raise InfraError("c16 harness died (rc=%d) without progress record: %s" % (h.rc, h.err[-1500:]))
         ops = part[idx][1].split()
-        if idx < start or stage not in ("write", "read", "compare", "predict") or not 1 <= step <= len(ops) or h.rc == 97:
+        if idx < start or stage not in ("write", "read", "reread", "compare", "predict") or not 1 <= step <= len(ops) or h.rc == 97:
             raise InfraError("c16 harness died outside the code under test (line %d step %d stage %s rc=%d): %s" % (idx, step, stage, h.rc, h.err[-1500:]))
         o = ops[step - 1].split(":")
         rc = 1000 - h.rc if h.rc < 0 else h.rc
         with open(out, "a") as f:
-            f.write(json.dumps(dict(e="Crash", step=step, op=o[0], p=o[1], k=o[2], stage=stage, rc=rc, san=h.san or ""), separators=(",", ":")) + "\n")
+            f.write(json.dumps(dict(e="Crash", step=step, op=o[0], p=o[1], k=o[2], stage=stage, rc=rc, x=int(o[0] == "Q"), san=h.san or ""), separators=(",", ":")) + "\n")
         errs.append(h.err[-3000:])
         start = idx + 1
     return hrun.read_ndjson(out), errs
@@ -257,7 +435,85 @@ def execute(ctx, exe, rd, hist, seed):
     return events, stderr
 
 
-def conform(ctx, hist, seed, label, selftest=False):
+def _chunks(events, n):
+    """split a trace into at most n pieces of whole Reset blocks of about equal length"""
+    blocks = tlc.split_blocks(events)
+    tot = sum(len(b) for b in blocks)
+    out, cur, size = [], [], 0
+    for b in blocks:
+        cur += b
+        size += len(b)
+        if size >= tot / n and len(out) < n - 1:
+            out.append(cur)
+            cur, size = [], 0
+    if cur:
+        out.append(cur)
+    return out
+
+
+def measured_classes(ctx, events, hist, catalogue):
+    """input classes (INPUT-CLASSES.md) of every executed history, measured on its recorded events: serialised lengths (K2) and shapes
+    (K1, K8) of the models written, content class (K3, K4, K5), history shape (K7).  A profile's catalogue tags (computed by TLC from
+    its parameters) must be among the measured ones: otherwise the library did not fit what the generator asked for (SPEC-DRIFT)."""
+    byid = dict(hist)
+    per = {}
+    cur, seen_read, writes, drift = None, set(), {}, set()
+    for ev in events:
+        e = ev["e"]
+        if e == "Reset":
+            cur = per.setdefault(ev["h"], set())
+            seen_read, writes = set(), {}
+        elif e == "Write":
+            k, sh = ev["k"], ev["sh"]
+            tags = set()
+            if k == "PCA":
+                n, p, a = sh["scores"][0][0], sh["loadings"][0][0], sh["loadings"][0][1]
+            elif k == "PLS":
+                n, p, a = sh["xscores"][0][0], sh["xloadings"][0][0], sh["xloadings"][0][1]
+                tags.add("K1:ny=1" if sh["yloadings"][0][0] == 1 else "K1:ny>1")
+            else:
+                n, p, a = sh["super_scores"][0][0], _nvars(k, sh), sh["super_scores"][0][1]
+            tags.add("K1:n=p" if n == p else "K1:n=p+-1" if abs(n - p) == 1 else "K1:tall" if n > p else "K1:wide")
+            tags.add("K1:a=rank" if a == min(n - 1, p) else "K1:a=1" if a == 1 else "K1:1<a<rank")
+            if p == 1:
+                tags.add("K1:p=1")
+            if any(_ncells(s) == 0 for s in sh.values()):
+                tags.add("K8:empty-optional-fields")
+            cc = ev["prm"][-1] if ev["prm"] else None
+            if cc is None:
+                tags.add("K4:rescaled-1e-9..1e9" if ev["rs"] else "K4:moderate")
+            else:
+                tags |= {0: {"K4:moderate"}, 1: {"K4:rescaled-1e-9..1e9"}, 2: {"K4:range-ends", "K5:planted-constants", "K9:missing-code-as-value"},
+                         3: {"K3:offset-1e3-sd"}, 4: {"K3:offset-1e6-sd"}}[cc]
+                if cc in (3, 4) and ev["kap"] < (300 if cc == 3 else 300000):
+                    drift.add("profile %s %s: content class %d asked for, measured max |mean|/sdev = %d" % (k, ev["prm"], cc, ev["kap"]))
+            # serialised lengths of the fields of the model as it is in memory (the input; the real file is judged by TLC)
+            tags |= {"K2:%s:%d" % (_ftype(k, f), n) for f, n in ev["rows"].items() if n in _K2LENS}
+            if ev["prm"] and not ev["re"]:
+                cat = catalogue.get((k, ev["s"]))
+                if cat is None or cat["prm"] != ev["prm"]:
+                    raise InfraError("Write of %s size %d with parameters %s is not in the catalogue" % (k, ev["s"], ev["prm"]))
+                lack = set(cat["tags"]) - tags
+                if lack:
+                    drift.add("profile %s %s: input classes %s computed by the specification are not measured on the model the library fitted" % (k, ev["prm"], sorted(lack)))
+            if ev["re"]:
+                cur.add("K7:rewrite-same-object")
+            if ev["p"] in writes:
+                cur.add("K7:overwrite-same-path")
+                if writes[ev["p"]] != k:
+                    cur.add("K7:other-kind-over")
+            if ev["p"] in seen_read:
+                cur.add("K7:write-after-read")
+            writes[ev["p"]] = k
+            cur |= tags
+        elif e == "Read":
+            seen_read.add(ev["p"])
+    for d in sorted(drift)[:3]:
+        ctx.spec_drift("input-class accounting: %s" % d)
+    return {h: sorted(t) for h, t in per.items() if h in byid}
+
+
+def conform(ctx, hist, seed, label, selftest=False, catalogue=None, count_classes=False):
     """(C) replay + validate and (V) variant inference.  hist: list of (id, opstring).  Returns the variant or None."""
     lib = build.build_lib("san")
     exe = build.build_harness("c16", ["c16_drv.c"], lib)
@@ -272,26 +528,38 @@ def conform(ctx, hist, seed, label, selftest=False):
         ctx.note("%s: %d histories executed, %d events (%d Reads, %d Tables)" % (label, len(hist), len(events), nreads, ntab))
         lab, stats = label_events(events)
         ctx.steps["%s_observed" % label] = stats
-        ctx.note("%s: %d non-empty and %d empty fields read back as written (worst error %d e-18, bound %d), %d prediction comparisons (worst %d e-18, bound %d)"
-                 % (label, stats["fields_compared"], stats["empty_fields_read"], stats["worst_field_err_1e18"], TOL, stats["preds_compared"], stats["worst_pred_err_1e18"], TOLPRED))
-        # ---- (V) which variant do the real files implement?  Impl layer only, decided by TLC
+        ctx.note("%s: %d non-empty and %d empty fields read back as written (worst error %d e-18, bound %d), %d prediction comparisons (worst %d e-18 = %d ppm of its bound), "
+                 "%d profile models written, %d rewrites"
+                 % (label, stats["fields_compared"], stats["empty_fields_read"], stats["worst_field_err_1e18"], TOL, stats["preds_compared"], stats["worst_pred_err_1e18"],
+                    stats["worst_pred_err_over_bound_ppm"], stats["profile_writes"], stats["rewrites"]))
+        if count_classes:
+            per = measured_classes(ctx, events, hist, catalogue or {})
+            for hid, tags in per.items():
+                for t in tags:
+                    ctx.cls(t)
+        chunks = _chunks(events, NPAR)
+        # ---- (V) which variant do the real files implement?  Impl layer only, decided by TLC (chunks of whole histories side by side)
         g = guess_variant(events)
         order = [g] + [v for v in ((True, True), (True, False), (False, True), (False, False)) if v != g]
         variant = None
         for d, s in order:
-            ok, n, r = tlc.validate_trace("TraceIo", _cfg(rd, "impl.cfg", d, s, True, False), events, timeout=900)
-            ctx.add_tlc(r, "%s_variant_%s_%s" % (label, d, s))
-            if ok:
+            cfg = _cfg(rd, "impl_%s_%s.cfg" % (d, s), d, s, True, False)
+            with ThreadPoolExecutor(NPAR) as ex:
+                res = list(ex.map(lambda c: tlc.validate_trace("TraceIo", cfg, c, timeout=900), chunks))
+            for i, (ok, n, r) in enumerate(res):
+                ctx.add_tlc(r, "%s_variant_%s_%s_%d" % (label, d, s, i))
+            if all(ok for ok, n, r in res):
                 variant = (d, s)
                 break
-            first_bad = events[n] if n < len(events) else None
-            ctx.note("%s: files do not match variant DropTables=%s SaveAll=%s at event %d %s" % (label, d, s, n, json.dumps(first_bad)[:200]))
+            i, (ok, n, r) = next((i, x) for i, x in enumerate(res) if not x[0])
+            first_bad = chunks[i][n] if n < len(chunks[i]) else None
+            ctx.note("%s: files do not match variant DropTables=%s SaveAll=%s at %s" % (label, d, s, json.dumps(first_bad)[:300]))
         if variant is None:
-            ctx.spec_drift("%s: the real files' tables/row counts match none of the modelled variants of io.c; property layer still checked" % label)
+            ctx.spec_drift("%s: the real files' tables/row counts (or the shapes of the profile models) match none of the modelled variants of io.c; property layer still checked" % label)
         else:
             ctx.note("%s: implemented variant (decided by TLC on the real Tables events): DropTables=%s SaveAll=%s" % ((label,) + variant))
         d, s = variant if variant else (True, True)
-        cfg_impl = _cfg(rd, "full.cfg", d, s, False, variant is None)
+        # the layers are independent conjuncts of every trace action: Impl-only accepted (above) and Prop-only accepted = both accepted
         cfg_prop = _cfg(rd, "prop.cfg", d, s, False, True)
 
         hid_of, cur = {}, None
@@ -307,48 +575,195 @@ def conform(ctx, hist, seed, label, selftest=False):
             if ev["e"] == "Crash":
                 m = [x for x in (re.search(r"(ERROR: AddressSanitizer[^\n]*|[^\n]*runtime error[^\n]*|SQL error[^\n]*)", t) for t in stderr) if x]
                 what += "\n  process died in stage %s (rc=%s %s); first report of this run: %s" % (ev["stage"], ev["rc"], ev.get("san", ""), m[0].group(1)[:300] if m else "none")
-            ctx.violation(sig, what, dict(kind="history", id=hid, ops=byid.get(hid), seed=seed, event=ev))
+            with _LOCK:
+                ctx.violation(sig, what, dict(kind="history", id=hid, ops=byid.get(hid), seed=seed, event=ev))
             return (lambda e: lab.get(id(e)) == sig) if id(ev) in lab else None
-        trace.check_trace(ctx, "TraceIo", cfg_impl, cfg_prop, events, on_reject, drop="event", label="%s_trace" % label, timeout=900, max_rounds=16)
+
+        def check(i):
+            # the alarm discipline of trace.check_trace for the Prop layer alone (the Impl layer was judged above, on the same chunks): an
+            # event the Prop layer rejects is a violation, reported through on_reject and removed with the events of the same signature,
+            # and the REST of the chunk is validated again
+            ev, rounds = list(chunks[i]), 0
+            while ev:
+                ok, n, r = tlc.validate_trace("TraceIo", cfg_prop, ev, timeout=900)
+                with _LOCK:
+                    ctx.add_tlc(r, "%s_trace_%d_%d" % (label, i, rounds))
+                if ok:
+                    break
+                if n >= len(ev):
+                    raise InfraError("trace rejected but every line matched (TraceIo)")
+                same = on_reject(ev[n], n, [ev[n]])
+                bad = ev[n]
+                ev = [e for e in ev if e is not bad and not (callable(same) and same(e))]
+                rounds += 1
+                if rounds >= 16:
+                    ctx.note("more than 16 rejected events in %s chunk %d; remaining trace not examined" % (label, i))
+                    break
+        with ThreadPoolExecutor(NPAR) as ex:
+            list(ex.map(check, range(len(chunks))))
         if variant is not None:
             ctx.traces(len(hist))
         if selftest:
-            # binding self-tests on a slice: one real row count changed -> Impl must reject; one read-back dim changed -> Prop must reject
-            sl = []
-            for b in tlc.split_blocks(events):
-                if not any(id(e) in lab or e["e"] == "Crash" for e in b):
-                    sl += b
-                if len(sl) > 400:
-                    break
-
-            def corrupt_tables(ev):
-                for e in ev:
-                    if e["e"] == "Tables":
-                        k = sorted(e["t"])[0]
-                        e["t"][k] += 1
-                        return True
-                return False
-
-            def corrupt_dims(ev):
-                for e in ev:
-                    if e["e"] == "Field" and e["d"] and e["f"] != "dmodx":
-                        e["d"][0][0] += 1
-                        return True
-                return False
-
-            def corrupt_err(ev):
-                for e in ev:
-                    if e["e"] == "Field" and e["c"] and _ncells(e["d"]) > 0:
-                        for c in e["c"]:
-                            c[1] = TOL + 1
-                        return True
-                return False
-            if variant and sl:
-                trace.binding_selftest(ctx, "TraceIo", _cfg(rd, "bt.cfg", d, s, True, False), sl, corrupt_tables, "binding_tables")
-                if any(e["e"] == "Field" for e in sl):
-                    trace.binding_selftest(ctx, "TraceIo", cfg_prop, sl, corrupt_dims, "binding_dims")
-                    trace.binding_selftest(ctx, "TraceIo", cfg_prop, sl, corrupt_err, "binding_value")
+            binding_selftests(ctx, rd, events, lab, variant, cfg_prop)
         return variant, events
+    finally:
+        shutil.rmtree(rd, ignore_errors=True)
+
+
+def binding_selftests(ctx, rd, events, lab, variant, cfg_prop):
+    """one recorded field corrupted -> TLC must reject: real row count (Impl), read-back dim, read-back error (Prop), and for the new parts of
+    the events: fit parameters of a profile (Impl: FitShape), shapes of a rewritten model (Prop), conditioning of a profile (Prop: PredFactor)"""
+    clean = [b for b in tlc.split_blocks(events) if not any(id(e) in lab or e["e"] == "Crash" for e in b)]
+
+    def slice_with(pred, limit=400):
+        sl = []
+        for b in clean:
+            if pred(b):
+                sl += b
+            if len(sl) > limit:
+                break
+        return sl
+
+    def first(ev, pred, change):
+        for e in ev:
+            if pred(e):
+                change(e)
+                return True
+        return False
+
+    def c_tables(ev):
+        return first(ev, lambda e: e["e"] == "Tables", lambda e: e["t"].__setitem__(sorted(e["t"])[0], e["t"][sorted(e["t"])[0]] + 1))
+
+    def c_dims(ev):
+        return first(ev, lambda e: e["e"] == "Field" and e["d"] and e["f"] != "dmodx", lambda e: e["d"][0].__setitem__(0, e["d"][0][0] + 1))
+
+    def c_err(ev):
+        def ch(e):
+            for c in e["c"]:
+                c[1] = TOL + 1
+        return first(ev, lambda e: e["e"] == "Field" and e["c"] and _ncells(e["d"]) > 0, ch)
+
+    def c_prm(ev):
+        return first(ev, lambda e: e["e"] == "Write" and e["prm"], lambda e: e["prm"].__setitem__(1, e["prm"][1] + 1))
+
+    def c_rewrite(ev):
+        def ch(e):
+            f = sorted(f for f in e["sh"] if e["sh"][f])[0]
+            e["sh"][f][0][0] += 1
+        return first(ev, lambda e: e["e"] == "Write" and e["re"] == 1, ch)
+
+    def c_predbound(ev):
+        # the prediction error of a judged profile model put just above ITS bound TolPred * PredFactor: accepted only if the factor were larger
+        w = {}
+        for e in ev:
+            if e["e"] == "Reset":
+                w = {}
+            elif e["e"] == "Write":
+                w[(e["p"], e["k"])] = e
+            elif e["e"] == "Pred":
+                m = w.get((e["p"], e["k"]))
+                if m and m["prm"] and m["resc"] == 0 and 1 < _pred_factor(m) <= MAXPREDFACTOR and any(t == m["tag"] for t, _ in e["c"]):
+                    for c in e["c"]:
+                        c[1] = TOLPRED * _pred_factor(m) + 1
+                    return True
+        return False
+    d, s = variant if variant else (True, True)
+    jobs = []
+    if variant:
+        jobs.append(("binding_tables", _cfg(rd, "bt.cfg", d, s, True, False), slice_with(lambda b: True), c_tables))
+        jobs.append(("binding_profile_shape", _cfg(rd, "bp.cfg", d, s, True, False), slice_with(lambda b: any(e["e"] == "Write" and e["prm"] for e in b), 150), c_prm))
+    jobs.append(("binding_dims", cfg_prop, slice_with(lambda b: any(e["e"] == "Field" for e in b)), c_dims))
+    jobs.append(("binding_value", cfg_prop, slice_with(lambda b: any(e["e"] == "Field" for e in b)), c_err))
+    jobs.append(("binding_rewrite_shape", cfg_prop, slice_with(lambda b: any(e["e"] == "Write" and e["re"] == 1 for e in b), 150), c_rewrite))
+    jobs.append(("binding_pred_bound", cfg_prop, slice_with(lambda b: any(e["e"] == "Write" and e["prm"] and e["prm"][-1] == 3 for e in b) and any(e["e"] == "Pred" for e in b), 150), c_predbound))
+    jobs = [j for j in jobs if j[2]]
+    names = {j[0] for j in jobs}
+    need = {"binding_dims", "binding_value"} | ({"binding_tables"} if variant else set())
+    if not need <= names:
+        raise InfraError("binding self-tests: no clean history to corrupt for %s" % sorted(need - names))
+    with ThreadPoolExecutor(NPAR) as ex:
+        list(ex.map(lambda j: trace.binding_selftest(ctx, "TraceIo", j[1], j[2], j[3], j[0]), jobs))
+    return names
+
+
+def extra_reuse(ctx, reuse, seed, variant):
+    """(X) outside the statement of C16: Read into a model object that an earlier Read filled.  Deviations are EXTRA-FINDINGs, never verdicts."""
+    hist = [(i + 1, h) for i, h in enumerate(reuse)]
+    lib = build.build_lib("san")
+    exe = build.build_harness("c16", ["c16_drv.c"], lib)
+    rd = tlc.rundir()
+    try:
+        events, stderr = execute(ctx, exe, rd, hist, seed)
+        nx = sum(1 for e in events if e["e"] == "Read" and e["x"] == 1)
+        ncr = sum(1 for e in events if e["e"] == "Crash" and e["x"] == 1)
+        other = [e for e in events if e["e"] == "Crash" and not e["x"]]
+        if nx + ncr < len(hist) or other:
+            # fresh reads / writes of these histories fail: that is the business of the replay above, which has (or has not) reported it
+            msg = "reuse family: %d histories, %d reads into a used object (+%d died), %d processes died elsewhere: %s" % (len(hist), nx, ncr, len(other), other[:1])
+            if ctx.violations:
+                ctx.note(msg + " - not examined (violations reported above)")
+                return
+            raise InfraError(msg)
+        for hid, h in hist:
+            ctx.case("reuse " + h, nontrivial=True)
+            ctx.cls("K7:read-into-used-object(outside-statement)")
+        d, s = variant if variant else (True, True)
+        ev = [e for e in events if not (e["e"] == "Field" and e["f"] == "dmodx" and not s)]     # the unsaved field is the known finding of the replay
+        # which reader do the recorded fields implement?  (Impl layer of the x = 1 events, Prop layer of everything else)
+        impl = None
+        for ru in ("appends", "resets"):
+            ok, n, r = tlc.validate_trace("TraceIo", _cfg(rd, "x_%s.cfg" % ru, d, s, False, False, reuse=ru), ev, timeout=900)
+            ctx.add_tlc(r, "reuse_variant_%s" % ru)
+            if ok:
+                impl = ru
+                break
+            ctx.note("reuse family: the recorded events do not match the reader variant '%s' at %s" % (ru, json.dumps(ev[n] if n < len(ev) else None)[:300]))
+        if impl is None:
+            if ctx.violations:
+                ctx.note("reuse family: not examined further (violations reported above)")
+            else:
+                ctx.spec_drift("reuse family: what Read does with a used destination matches neither modelled variant (appends / resets); not examined further")
+            return
+        ctx.note("reuse family: %d histories, %d reads into a used object (%d died inside the library, as the exact model predicts for tensors that do not fit); "
+                 "implemented reader variant (decided by TLC): %s" % (len(hist), nx, ncr, impl))
+        ctx.steps["reuse"] = dict(histories=len(hist), reads_into_used_object=nx, died=ncr, reader_variant=impl)
+        ctx.traces(len(hist))
+        byid = dict(hist)
+        blocks = tlc.split_blocks(ev)
+
+        def c_xdims(evs):
+            for e in evs:
+                if e["e"] == "Field" and e["x"] == 1 and e["d"]:
+                    e["d"][0][0] += 1
+                    return True
+            return False
+        sl = [e for b in [b for b in blocks if not any(e["e"] == "Crash" for e in b)][:12] for e in b]
+        cfgx = _cfg(rd, "xp.cfg", d, s, False, True, reuse=impl, xprop=True)
+
+        def held_to_property(k):
+            # every other event of these histories was accepted by the run above: one pass per kind says whether the reused reads are ReadsLast too
+            evk = [e for b in blocks if byid.get(b[0].get("h"), "").split(":")[2:3] == [k] or any(e.get("k") == k for e in b[1:2]) for e in b]
+            if not evk:
+                return k, None, None
+            ok, n, r = tlc.validate_trace("TraceIo", cfgx, evk, timeout=900)
+            with _LOCK:
+                ctx.add_tlc(r, "reuse_xprop_%s" % k)
+            return k, (None if ok else evk[n]), evk[:n + 1]
+        with ThreadPoolExecutor(NPAR) as ex:
+            fb = ex.submit(trace.binding_selftest, ctx, "TraceIo", _cfg(rd, "xb.cfg", d, s, True, False, reuse=impl), sl, c_xdims, "binding_reused_read_dims")
+            res = list(ex.map(held_to_property, ("PCA", "CPCA", "PLS")))
+            fb.result()
+        for k, bad, prefix in res:
+            if bad is None:
+                continue
+            if not bad.get("x"):
+                raise InfraError("reuse family: an event of a fresh read is rejected: %s" % json.dumps(bad)[:300])
+            hid = [e["h"] for e in prefix if e["e"] == "Reset"][-1]
+            how = "the process dies (%s)" % bad.get("san", "") if bad["e"] == "Crash" else "field %s comes back with dims %s" % (bad["f"], json.dumps(bad["d"])[:80])
+            ctx.extra("IO:%s:read-into-used-object" % k,
+                      "Read%s into a model object that an earlier Read%s filled does not return the model last written: history [%s] (seed %s): %s. "
+                      "io.c appends to the vectors / lists / tensors of the destination instead of replacing them (%d of the %d such reads die with a heap overflow under ASan); "
+                      "this is what the python binding's load() does on a used object" % (k, k, byid.get(hid), seed, how, ncr, nx + ncr))
     finally:
         shutil.rmtree(rd, ignore_errors=True)
 
@@ -360,9 +775,10 @@ def variant_agreement(ctx, variant, verdict):
     if variant not in verdict:
         rd = tlc.rundir()
         try:
-            cfg = tlc.write_cfg(os.path.join(rd, "v.cfg"), spec="Spec", constants=dict(Paths=PATHS, MaxHist=4, DropTables=variant[0], SaveAll=variant[1]),
+            cfg = tlc.write_cfg(os.path.join(rd, "v.cfg"), spec="Spec", constants=dict(Paths=PATHS, MaxHist=4, DropTables=variant[0], SaveAll=variant[1], ReadBlock=0,
+                                                                                      SizeSet="{1, 2, 3}", Rewrites=False, Shape="all"),
                                 invariants=["ReadsLast"], view="MCView", deadlock=False)
-            r = tlc.run("Io", cfg, timeout=900)
+            r = tlc.run("Io", cfg, workers=max(2, W // 2), timeout=900)
             ctx.add_tlc(r, "mc_io_implemented_variant")
             verdict[variant] = r.ok
         finally:
@@ -383,35 +799,48 @@ def variant_agreement(ctx, variant, verdict):
 
 def run(ctx):
     ctx.assumptions += [
-        "TLC explores Io.tla exhaustively within the stated bounds only (2 paths, 3 kinds, 3 size classes, history length <= %d)" % (4 if ctx.quick else 5),
+        "TLC explores Io.tla exhaustively within the stated bounds only (2 paths, 3 kinds, 3 abstract size classes, history length <= %d; the profile and rewrite history families as defined by ProfHist / RewriteHist)" % (4 if ctx.quick else 5),
         "numbers are compared by the harness in double precision and logged as errors in units of 1e-18 against every previously written model of equal dims; "
         "TLC decides which written model is the most recent one for the path/kind and applies the 1e-15*max(1,|v|) tolerance",
-        "prediction agreement is judged (tolerance 1e-12*max(1,|v|)) for models that were not rescaled; rescaled models (contents 1e-9..1e9) are judged on their numbers",
+        "prediction agreement is judged (tolerance 1e-12*max(1,|v|); for a profile model times 1 + kap*ceil(sqrt(nvars))/100 with kap = max |mean|/sdev of its training data, while that "
+        "factor is <= %d) for models that were not rescaled; rescaled models (contents 1e-9..1e9, range ends, planted constants) are judged on their numbers" % MAXPREDFACTOR,
         "the real files are inspected with the sqlite3 C API from the harness after every step; reads go into freshly created models",
         "fsync/fdatasync are stubbed in the harness executable (durability of scratch files is irrelevant; io.c commits once per INSERT)",
         "ASan/UBSan build: a sanitizer report or abort inside Write*/Read* is a violation",
+        "the Impl-only validation (variant inference) and the Prop-only validation are run separately on chunks of whole histories; the layers are independent conjuncts of every trace action",
     ]
-    verdict = model_check(ctx)
-    maximal, sim, short = gen_histories(ctx, 150 if ctx.quick else 1500, 120 if ctx.quick else 2500)
-    hist = [(i + 1, h) for i, h in enumerate(maximal + sim)]
+    jobs = mc_jobs(ctx) + gen_jobs(ctx, 200 if ctx.quick else 2500)      # (M) and (GEN) are independent TLC work: one pool
+    rs = _tlc_many(jobs)
+    for label, _, _, _ in jobs:
+        ctx.add_tlc(rs[label], label)
+    verdict = model_check(ctx, rs)
+    maximal, prof, rew, sim, short, catalogue, reuse = gen_histories(ctx, rs, 120 if ctx.quick else 2500)
+    hist = [(i + 1, h) for i, h in enumerate(maximal + prof + rew + sim)]
     for hid, h in hist:
         ops = h.split()
-        wp = [o.split(":")[1] for o in ops if o[0] == "W"]
-        ctx.case(h, nontrivial=any(wp.count(p) >= 2 for p in set(wp)))
-    for hid, h in hist[:2] + hist[-2:]:
+        wp = [o.split(":")[1] for o in ops if o[0] in "WX"]
+        ctx.case(h, nontrivial=any(wp.count(p) >= 2 for p in set(wp)) or any(len(o.split(":")) > 4 or o[0] == "X" for o in ops))
+    for hid, h in hist[:1] + hist[len(maximal):len(maximal) + 2] + hist[len(maximal) + len(prof):len(maximal) + len(prof) + 1] + hist[-2:]:
         ctx.sample(dict(history=h))
-    ctx.cov["rule"] = ("a case is one TLC-generated history executed on real files (every history of length 1..3, up to renaming of the two paths, is a prefix of an executed one: %d; "
-                       "plus %d sampled histories of length 5); non-trivial = at least two Writes to one path" % (short, len(sim)))
+    ctx.cov["rule"] = ("a case is one TLC-generated history executed on real files (every history of length 1..3 over the abstract size classes, up to renaming of the two paths, is a prefix of an executed one: %d; "
+                       "plus %d profile histories, %d rewrite histories, %d sampled histories of length 5 over the whole alphabet); non-trivial = at least two Writes to one path, or a concrete profile model, or a rewrite"
+                       % (short, len(prof), len(rew), len(sim)))
     ctx.cov["exhaustive"] = True
-    variant, events = conform(ctx, hist, ctx.seed, "replay", selftest=True)
+    ctx.cov["profiles"] = len(catalogue)
+    variant, events = conform(ctx, hist, ctx.seed, "replay", selftest=True, catalogue=catalogue, count_classes=True)
+    # vacuity of the new parts: profiles and rewrites were really executed and really compared
+    st = ctx.steps["replay_observed"]
+    if (st["profile_writes"] < len(catalogue) or st["rewrites"] < len(rew)) and not ctx.violations:
+        raise InfraError("the harness executed %d profile writes for %d profiles and %d rewrites for %d rewrite histories" % (st["profile_writes"], len(catalogue), st["rewrites"], len(rew)))
     if not ctx.quick:
-        # the exhaustive history set once more with other model contents and dims
-        v2, _ = conform(ctx, hist[:len(maximal)], ctx.seed + 1, "replay_seed2")
+        # the exhaustive history sets once more with other model contents and dims
+        v2, _ = conform(ctx, hist[:len(maximal) + len(prof) + len(rew)], ctx.seed + 1, "replay_seed2")
         if v2 != variant:
             ctx.note("variant inferred with the second seed differs: %s vs %s" % (v2, variant))
     if all(s["fields_compared"] == 0 for k, s in ctx.steps.items() if k.endswith("_observed")) and not ctx.violations:
         raise InfraError("no field was ever compared: the conformance step is vacuous")
     variant_agreement(ctx, variant, verdict)
+    extra_reuse(ctx, reuse, ctx.seed, variant)
 
 
 def replay(ctx, body):
